@@ -39,13 +39,13 @@ PROFILES = {
     "C10": dict(gen=dict(private_rate=0.3), options=[dict(), dict(convert=True)]),
     "C11": dict(gen=dict(twins=0.6), options=[dict()]),
     "C12": dict(gen=dict(private_rate=0.3, ties=0.4, base_alias=0.7), options=[dict()]),
-    "C13": dict(gen=dict(docs=0.85, reexports=False), options=[dict()]),
+    "C13": dict(gen=dict(docs=0.85, reexports=False), options=[dict()], history=True),
     "C20": dict(gen=dict(docs=0.0), options=[dict()]),
     "C14": dict(gen=dict(docs=1.0, doc_types="mixed", infer_returns=0.1), styles=["numpydoc", "google", "rest"],
                 options=[dict(tsp=p, tsw=w) for p in ("CODE", "DOCSTRING") for w in ("WARN", "IGNORE")]),
     "C17": dict(gen=dict(private_rate=0.45, docs=0.0, chains=0.5), options=[dict(), dict(convert=True)]),
     "C09": dict(gen=dict(kw_rate=0.1, docs=0.3), options=[dict(convert=False), dict(convert=True)]),
-    "C16": dict(gen=dict(docs=0.3), options=[dict(), dict(convert=True)], twice=True),
+    "C16": dict(gen=dict(docs=0.3), options=[dict(), dict(convert=True)], twice=True, history=True),
 }
 
 
@@ -78,6 +78,32 @@ def one_case(task):
             if out["sample"] is None:
                 out["sample"] = {"seed": seed, "options": opts, "modules": [m["qname"] for m in pkg["modules"]],
                                  "stub_files": sorted(p for p in res["files"] if p.endswith(".sdsstub"))[:6]}
+        if prof.get("history") and seed % 2 == 0:
+            # C13 / C16: ANOTHER package written to the SAME path and analysed later in the same process must be judged
+            # from its own sources (nothing remembered from the earlier analysis of that path)
+            rng2 = random.Random(seed ^ 0x5EED5EED)
+            pkg2 = pkggen.PkgGen(rng2, style=style, **gen_kw).package()
+            if pkg2["root"] == pkg["root"]:
+                shutil.rmtree(top / "src", ignore_errors=True)
+                e2e.write_pkg(pkggen.render(pkg2), top / "src")
+                opts = {"style": style, **prof["options"][0]}
+                res2 = e2e.run_tool(_impl(), top / "src" / pkg2["root"], top / "out_history", **opts)
+                out["outcomes"].append(res2["outcome"] if res2["outcome"] != "exc" else f"{res2['exc']}@{res2['site']}")
+                if res2["outcome"] == "exc":
+                    # does the same package complete at a path that was never analysed?  then the abort is history
+                    e2e.write_pkg(pkggen.render(pkg2), top / "src_fresh")
+                    res3 = e2e.run_tool(_impl(), top / "src_fresh" / pkg2["root"], top / "out_fresh", **opts)
+                    if res3["outcome"] == "ok":
+                        out["fails"].append((prop, f"the run ends with {res2['exc']} at {res2['site']} because ANOTHER package was analysed "
+                                                   f"at the same path earlier in this process; at a fresh path the same package completes",
+                                             {"stage": "S-E", "seed": seed, "options": opts,
+                                              "history": "generator seed ^ 0x5EED5EED written over the first package", "msg": res2.get("msg")}))
+                for p, what, extra in oracles_e2e.check_all(prop, pkg2, opts, res2)[:8]:
+                    out["fails"].append((p, what, {"stage": "S-E", "seed": seed, "options": opts,
+                                                   "history": "a different package was analysed at the same path earlier in this "
+                                                              "process (generator seed ^ 0x5EED5EED)", **extra}))
+                if out["fails"] and not files.get("__history__"):
+                    files = {**files, **{"history/" + k: v for k, v in pkggen.render(pkg2).items()}}
         for p, what, extra in oracles_e2e.check_cross(prop, pkg, runs)[:4]:
             out["fails"].append((p, what, {"stage": "S-E", "seed": seed, **extra}))
         out["n_decls"] = sum(len(m["functions"]) + len(m["classes"]) + len(m["enums"]) for m in pkg["modules"])
